@@ -221,6 +221,10 @@ def line_wrap_class(progs):
                 if watch:
                     jobs.append(("fn:sig_wide", ["", m["sig"]]))
                     owners.append((idx, m, watch))
+                if "Self" in toks and len(names) > 1:
+                    sub = re.sub(r"\bSelf\b", p["actor_ty"], m["sig"])        # what GenWork::retain sees after the substitution
+                    jobs.append(("fn:sig_wide", ["", sub]))
+                    owners.append((idx, m, [n for n in names if n != "Self" and n in set(g.sig_tokens(sub))]))
     out = {}
     if not jobs:
         return out
@@ -238,8 +242,11 @@ def part_generics(rep, rng, tc_queue):
     n = 300 if rep.tier == "quick" else 2000
     progs = []
     for i in range(n):
-        p = g.gen_program(rng, family=False, lifetimes=(i % 3 == 0), shapes=["plain", "snake", "digit"], own_names=False, max_gen=4,
-                          p_generic=1.0, use_prob=0.6, allow_self_ty=False, options=(i % 2 == 0))
+        if i % 3 == 1:      # Self-only / Self+literal uses of the impl parameters in reference methods (substitution precedes retain)
+            p = g.gen_self_program(rng, "only" if i % 6 == 1 else "mix", options=(i % 2 == 0))
+        else:
+            p = g.gen_program(rng, family=False, lifetimes=(i % 3 == 0), shapes=["plain", "snake", "digit"], own_names=False, max_gen=4,
+                              p_generic=1.0, use_prob=0.6, allow_self_ty=False, options=(i % 2 == 0))
         progs.append(p)
     fams = [g.gen_program(rng, family=True, lifetimes=False, shapes=["plain", "snake"], p_generic=1.0, options=True) for _ in range(n // 4)]
     jobs = [("expand2", [p["kind"], p["attr"], p["item"]]) for p in progs + fams]
@@ -268,8 +275,13 @@ def part_generics(rep, rng, tc_queue):
                 rep.count("known_class_inputs", "includes-line-wrap")
             continue
         sel = p["selected_sets"][0]
-        items.append(("s%d" % i, "mg_script (impl_gen %s (rev (filter nonconst %s)) %s)" % (coq_params(p["generics"]), coq_params(p["generics"]), coq_meths(g.model_methods(p, sel)))))
-        items.append(("p%d" % i, "mg_phantom (impl_gen %s (rev (filter nonconst %s)) %s)" % (coq_params(p["generics"]), coq_params(p["generics"]), coq_meths(g.model_methods(p, sel)))))
+        sty = "[%s]" % "; ".join(cs(t) for t in g.self_ty_tokens(p))
+        call = "(impl_gen %s %s (rev (filter nonconst %s)) %s)" % (coq_params(p["generics"]), sty, coq_params(p["generics"]), coq_meths(g.model_methods(p, sel)))
+        items.append(("s%d" % i, "mg_script " + call))
+        items.append(("p%d" % i, "mg_phantom " + call))
+        if p.get("self_mode"):
+            rep.count("self_programs", p["self_mode"])
+            rep.nontrivial.add(("C", "self", p["self_mode"], gsig, tuple(sorted(u for m in p["methods"] for u in m["self_use"]))))
         owners.append((i, p, t1))
     vals = {}
     for a in range(0, len(items), 800):
@@ -370,7 +382,8 @@ WITNESS_DIAG = ("nested-wildcard-pattern", "actor", "", "impl A { pub fn new() -
 def part_typecheck(rep, rng, tc_queue):
     n = 240 if rep.tier == "quick" else 1500
     batch = 200
-    progs = [g.gen_mostly_clean(rng, family=(i % 4 == 3), lifetimes=False, shapes=list(g.NAME_SHAPES), own_names=True) for i in range(n)]
+    progs = [g.gen_self_program(rng, "only" if i % 8 == 1 else "mix") if i % 4 == 1 else
+             g.gen_mostly_clean(rng, family=(i % 4 == 3), lifetimes=False, shapes=list(g.NAME_SHAPES), own_names=True) for i in range(n)]
     res = hook.run_parallel([(p["kind"], [p["attr"], p["item"]]) for p in progs], tag="c06e", shards=12)
     wrap = line_wrap_class(progs)
     extra = [(name, p, d) for name, p, d in tc_queue]
@@ -396,7 +409,9 @@ def part_typecheck(rep, rng, tc_queue):
             rep.evaluations += 1
             rep.traces += 1
             cls_known = g.known_class(p) or ("includes-line-wrap" if i in wrap else None)
-            rep.nontrivial.add(("E", p["kind"], p["lib"], "".join(x[0] for x, _, _ in p["generics"]), p["ctor"]))
+            rep.nontrivial.add(("E", p["kind"], p["lib"], "".join(x[0] for x, _, _ in p["generics"]), p["ctor"], p.get("self_mode")))
+            if p.get("self_mode"):
+                rep.count("self_programs_typechecked", p["self_mode"])
             if k not in errs:
                 rep.oblige(True)
                 continue
